@@ -36,6 +36,8 @@ type checkSpec struct {
 }
 
 var checks = map[string]checkSpec{
+	"C06": {modDir: repoDir, pkg: "./internal/counter", test: "TestVerifC06", quickS: 120, thoroS: 900, gomaxp: "2", floor: 10000, minClass: 4},
+	"C04": {modDir: repoDir, pkg: "./internal/counter", test: "TestVerifC04", quickS: 240, thoroS: 1500, gomaxp: "2", floor: 1000, minClass: 5},
 	"C03": {modDir: repoDir, pkg: "./internal/counter", test: "TestVerifC03", quickS: 240, thoroS: 1500, gomaxp: "2", floor: 1000, minClass: 5},
 }
 
@@ -355,22 +357,33 @@ func main() {
 	}
 }
 
+// loadFindings reads /verif/known_findings.txt. Lines:
+//
+//	known: property=<id> sig=<signature> :: <what fails>
+//	fixed: property=<id> <commit> <what failed>
+//
+// Only "known" lines suppress anything; the file is never written at run time.
 func loadFindings() []finding {
 	var out []finding
-	data, err := os.ReadFile(filepath.Join(verifDir, "known_findings.jsonl"))
+	data, err := os.ReadFile(filepath.Join(verifDir, "known_findings.txt"))
 	if err != nil {
 		return nil
 	}
 	for _, line := range strings.Split(string(data), "\n") {
 		line = strings.TrimSpace(line)
-		if line == "" || strings.HasPrefix(line, "#") {
+		if !strings.HasPrefix(line, "known: property=") {
 			continue
 		}
-		var f finding
-		if err := json.Unmarshal([]byte(line), &f); err != nil {
-			die(2, "known_findings.jsonl: %v", err)
+		rest := strings.TrimPrefix(line, "known: property=")
+		id, rest, ok := strings.Cut(rest, " sig=")
+		if !ok {
+			die(2, "known_findings.txt: bad line %q", line)
 		}
-		out = append(out, f)
+		sig, what, ok := strings.Cut(rest, " :: ")
+		if !ok {
+			die(2, "known_findings.txt: bad line %q", line)
+		}
+		out = append(out, finding{Property: id, Sig: sig, Status: "known", What: what})
 	}
 	return out
 }
